@@ -6,10 +6,10 @@ H = "harness/C17_literals.py"
 def run(ctx: Ctx) -> int:
     t = ctx.pick(90, 400)
     jobs = [Job(H, fn, timeout=t) for fn in
-            ("h_bounds_check", "h_literal_type", "h_literal_nested", "h_payload", "h_payload_nested", "h_negation_fold")]
+            ("h_bounds_check", "h_literal_type", "h_literal_nested", "h_payload", "h_payload_nested", "h_negation_fold", "h_negation_in_program")]
     ctx.functions_encoded = [
         "checker/expr_checker.py: _int_bounds_check, python_value_to_guppy_type, _python_list_to_guppy_type (match desugared from current source)",
-        "cfg/builder.py: ExprBuilder.visit_UnaryOp (match desugared)",
+        "cfg/builder.py: ExprBuilder.visit_UnaryOp (match desugared); CFGBuilder/BranchBuilder.visit_Compare/visit_BoolOp on programs built around a negated symbolic literal",
         "compiler/expr_compiler.py: python_value_to_hugr (match desugared); std/_internal/compiler/arithmetic.py: UnsignedIntVal.to_value; installed hugr.std.int.IntVal.to_value"]
     ctx.bounds = {"v": "unbounded Python int (z3 Int)", "hints": "none/int/nat/float, element-wise inside tuples",
                   "shapes": "scalar, pair, nested pair, 2-element list, (float, int)"}
